@@ -175,14 +175,16 @@ def run(ck: Check):
                     c["bad_rids"] = rng.sample(range(total), min(total, rng.choice([1, 2, 3])))
     scs += takeover_late_partition(rng, n)
     scs += takeover_offsetfetch_errors(random.Random(ck.seed * 7121 + 424), 900000)
-    # the application commits by hand (commit() / commit({tp: offset}) / OffsetAndMetadata) after every batch, with and
-    # without the auto-commit timer running beside it
+    # the application commits by hand (commit() without arguments) after every batch, with and without the auto-commit
+    # timer running beside it
     rng_mc = random.Random(ck.seed * 7121 + 414)
     for i in range(ck.n(18, 200)):
         sc = conssim.gen_scenario(rng_mc, 800000 + i)
         sc["faults"]["apis"] = ["OffsetCommit", "OffsetCommit", "Heartbeat", "JoinGroup", "SyncGroup", "FindCoordinator"]
         for c in sc["consumers"]:
-            c["manual_commit"] = rng_mc.choice(["all", "explicit", "explicit_meta"])
+            # commit() without arguments only: with explicit offsets the application chooses what to commit (e.g. what
+            # it was handed before a rebalance) - C04 speaks of the offsets the consumer chooses
+            c["manual_commit"] = "all"
             c["auto_commit"] = rng_mc.random() < 0.3
         sc["family"] = "manual-commit"
         scs.append(sc)
